@@ -143,6 +143,7 @@ func propC02(w *World, r *Report) {
 		return n > 0, "no index into outlines.Widths found"
 	}
 	RunBoundsControls(r)
+	RunLoopControls(r)
 	r.Conds["charstring-budget"] = condGlobalBudget(w, "(*cff.decodeInfo).decodeCharString")
 	r.Conds["format12-budget"] = condExpansionBudget(w, "cmap.decodeFormat12")
 	r.Conds["glyphheight-guarded"] = func() (bool, string) {
